@@ -368,56 +368,76 @@ def curCell (s : RSt) (i : Nat) : Except Err Nat :=
 
 /-! ## one instruction -/
 
+/-- what an instruction does to the registers of its frame: nothing, fresh words named by `dst`, or an alias -/
+inductive Eff where
+  | none
+  | val (dst : Nat) (ws : List UInt64)
+  | alias (dst : Nat) (rg : Region)
+deriving Repr, Inhabited
+
+/-- the machine outside the frame's registers after an instruction, the frame's upvalue map, the register effect -/
+abbrev CoreRes := Glob × List (Nat × Nat) × Eff
+
+def res (s : RSt) (e : Eff) : CoreRes := (s.g, s.fr.upmap, e)
+
+/-- registers change ONLY here: `val` binds fresh words, `alias` names an existing region -/
+def applyEff (fr : Frame) (r : CoreRes) : RSt :=
+  let fr' : Frame := { fr with upmap := r.2.1 }
+  match r.2.2 with
+  | .none => ⟨fr', r.1⟩
+  | .val d ws => bind ⟨fr', r.1⟩ d ws
+  | .alias d rg => ⟨{ fr' with regs := fr'.regs.setIfInBounds d (some rg) }, r.1⟩
+
 /-- all instructions that leave the current state storage alone (closure calls run in the closure's own storage) -/
-def stepRest (callF : CallF) (P : Prog) (i : Ins) (s : RSt) : Except Err RSt :=
+def stepCore (callF : CallF) (P : Prog) (i : Ins) (s : RSt) : Except Err CoreRes :=
   match i with
-  | .const dst w => .ok (bind s dst [w])
-  | .alloc dst n => .ok (bind s dst (List.replicate n 0))
-  | .load dst src n => do .ok (bind s dst (← readOpd s src n))
+  | .const dst w => .ok (res s (.val dst [w]))
+  | .alloc dst n => .ok (res s (.val dst (List.replicate n 0)))
+  | .load dst src n => do .ok (res s (.val dst (← readOpd s src n)))
   | .store p src n => do
     let rp ← regOf s.fr p
     let ws ← readOpd s src n
     let m ← writeN s.g.mem rp.addr ws
-    .ok { s with g := { s.g with mem := m } }
+    .ok (res { s with g := { s.g with mem := m } } .none)
   | .storeFn p g => do
     let rp ← regOf s.fr p
     let (s1, h) ← newClosure P s g
     let m ← writeN s1.g.mem rp.addr [h]
-    .ok { s1 with g := { s1.g with mem := m } }
+    .ok (res { s1 with g := { s1.g with mem := m } } .none)
   | .getElem dst src off n => do
     let rg ← regOf s.fr src
-    .ok { s with fr := { s.fr with regs := s.fr.regs.setIfInBounds dst (some ⟨rg.addr + off, n⟩) } }
+    .ok (res s (.alias dst ⟨rg.addr + off, n⟩))
   | .getGlobal dst gid n =>
-    if gid + n ≤ s.g.globals.size then .ok (bind s dst (s.g.globals.extract gid (gid + n)).toList)
+    if gid + n ≤ s.g.globals.size then .ok (res s (.val dst (s.g.globals.extract gid (gid + n)).toList))
     else .error (.stuck "global read out of bounds")
   | .setGlobal gid src n => do
     let ws ← readOpd s src n
     match writeN s.g.globals gid ws with
-    | .ok gl => .ok { s with g := { s.g with globals := gl } }
+    | .ok gl => .ok (res { s with g := { s.g with globals := gl } } .none)
     | .error _ => .error (.stuck "global write out of bounds")
   | .setGlobalFn gid g => do
     let (s1, h) ← newClosure P s g
     match writeN s1.g.globals gid [h] with
-    | .ok gl => .ok { s1 with g := { s1.g with globals := gl } }
+    | .ok gl => .ok (res { s1 with g := { s1.g with globals := gl } } .none)
     | .error _ => .error (.stuck "global write out of bounds")
   | .mkClosure dst fo => do
     let g ← match fo with
       | .fn i => pure i
       | o => do pure (← readWord s o).toNat
     let (s1, h) ← newClosure P s g
-    .ok (bind s1 dst [h])
+    .ok (res s1 (.val dst [h]))
   | .closeHeap src => do
     let w ← readWord s src
-    .ok { s with g := ← closeHandle s.g w }
-  | .cloneHeap _ => .ok s
+    .ok (res { s with g := ← closeHandle s.g w } .none)
+  | .cloneHeap _ => .ok (res s .none)
   | .closeUp src offs => do
     let rg ← regOf s.fr src
-    closeOffs s rg offs
+    .ok (res (← closeOffs s rg offs) .none)
   | .getUp dst i _ => do
     let id ← curCell s i
     match s.g.cells[id]? with
-    | some (.opn a n) => do .ok (bind s dst (← readN s.g.mem a n))
-    | some (.closed ws) => .ok (bind s dst ws)
+    | some (.opn a n) => do .ok (res s (.val dst (← readN s.g.mem a n)))
+    | some (.closed ws) => .ok (res s (.val dst ws))
     | none => .error (.stuck "dangling upvalue cell")
   | .setUp i src n => do
     let id ← curCell s i
@@ -425,33 +445,33 @@ def stepRest (callF : CallF) (P : Prog) (i : Ins) (s : RSt) : Except Err RSt :=
     match s.g.cells[id]? with
     | some (.opn a _) => do
       let m ← writeN s.g.mem a ws
-      .ok { s with g := { s.g with mem := m } }
-    | some (.closed _) => .ok { s with g := { s.g with cells := s.g.cells.setIfInBounds id (.closed ws) } }
+      .ok (res { s with g := { s.g with mem := m } } .none)
+    | some (.closed _) => .ok (res { s with g := { s.g with cells := s.g.cells.setIfInBounds id (.closed ws) } } .none)
     | none => .error (.stuck "dangling upvalue cell")
-  | .un op dst a => do .ok (bind s dst [evalUn op (← readWord s a)])
+  | .un op dst a => do .ok (res s (.val dst [evalUn op (← readWord s a)]))
   | .bin op dst a b => do
     let x ← readWord s a
     let y ← readWord s b
-    .ok (bind s dst [← evalBin op x y])
+    .ok (res s (.val dst [← evalBin op x y]))
   | .unionWrap dst tag src total payload => do
     let pay ← if src = .none ∨ payload = 0 then pure [] else readOpd s src payload
     let body := (pay ++ List.replicate (total - 1 - pay.length) 0).take (total - 1)
-    .ok (bind s dst (tag.toUInt64 :: body))
+    .ok (res s (.val dst (tag.toUInt64 :: body)))
   | .unionTag dst src => do
     let rg ← regOf s.fr src
-    .ok (bind s dst (← readN s.g.mem rg.addr 1))
+    .ok (res s (.val dst (← readN s.g.mem rg.addr 1)))
   | .unionVal dst src n => do
     let rg ← regOf s.fr src
-    .ok (bind s dst (← readN s.g.mem (rg.addr + 1) n))
+    .ok (res s (.val dst (← readN s.g.mem (rg.addr + 1) n)))
   | .call dst (.ext name) args nret => do
     let ws ← readArgs s args
     let out ← extCall name ws s.g.now s.g.sr
-    if out.length < nret then .error (.stuck "external function returned too few words") else .ok (bind s dst (out.take nret))
+    if out.length < nret then .error (.stuck "external function returned too few words") else .ok (res s (.val dst (out.take nret)))
   | .call _ _ _ _ => .error (.unsupported "call of a non-register callee")
   | .callInd dst (.ext name) args nret => do
     let ws ← readArgs s args
     let out ← extCall name ws s.g.now s.g.sr
-    if out.length < nret then .error (.stuck "external function returned too few words") else .ok (bind s dst (out.take nret))
+    if out.length < nret then .error (.stuck "external function returned too few words") else .ok (res s (.val dst (out.take nret)))
   | .callInd dst f args nret => do
     let ws ← readArgs s args
     let w ← readWord s f
@@ -464,12 +484,15 @@ def stepRest (callF : CallF) (P : Prog) (i : Ins) (s : RSt) : Except Err RSt :=
         let (out, g', st', _) ← callF cl.fn ws (some c) s.g cl.st []
         let g'' := { g' with clos := g'.clos.modify c fun cl' => { cl' with st := st' } }
         if out.length < nret then .error (.stuck "callee returned too few words")
-        else .ok (bind { s with g := g'' } dst (out.take nret))
-  | .jmpIf c _ _ _ => do let _ ← readWord s (.reg c); .ok s
-  | .switch c _ _ _ => do let _ ← readWord s (.reg c); .ok s
-  | .nop => .ok s
+        else .ok (g'', s.fr.upmap, .val dst (out.take nret))
+  | .jmpIf c _ _ _ => do let _ ← readWord s (.reg c); .ok (res s .none)
+  | .switch c _ _ _ => do let _ ← readWord s (.reg c); .ok (res s .none)
+  | .nop => .ok (res s .none)
   | .uns what => .error (.unsupported what)
-  | _ => .ok s      -- state instructions, `Call` through a register and the other control instructions: see `stepIns` / `execBlockM`
+  | _ => .ok (res s .none)   -- state instructions, `Call` through a register and the other control instructions: see `stepIns` / `execBlockM`
+
+def stepRest (callF : CallF) (P : Prog) (i : Ins) (s : RSt) : Except Err RSt := do
+  .ok (applyEff s.fr (← stepCore callF P i s))
 
 def accessOf (st : St) : SOp → List Access
   | .get n => [⟨.get, st.pos, n⟩]
